@@ -16,4 +16,3 @@ for p in $props; do
   done
 done
 git -C /repo worktree remove --force $WT
-rm -rf /verif/.build/alt-* /verif/.build/altbin-*
